@@ -25,7 +25,8 @@ pub fn judge(dir: &Path, sc: &Scenario, obs: &mut Obs) -> Judge {
     let harmless_script = sc.script.iter().all(|e| matches!(e, Sev::Pass | Sev::Hold | Sev::DropPending | Sev::At(_) | Sev::AckFull | Sev::AckPartial(_) | Sev::AckDup(_) | Sev::DataDup(_) | Sev::DataFuture(_) | Sev::StrayAck(_) | Sev::Garbage(_) | Sev::StrayData(_) | Sev::Oack));
     // the OACK handshake itself is outside the property (C04/C08 speak about the data phase): it must not be disturbed
     let handshake_intact = !sc.handshake || matches!(sc.script.first(), Some(Sev::Pass) | None);
-    if harmless_script && handshake_intact && sc.after == After::Honest && sc.fates.is_empty() && fa.max_failed_per_window < 6 && sc.dally {
+    // (random garbage can spell a well-formed ERROR packet: then the peer did send an ERROR and the transfer rightly ends)
+    if harmless_script && !fa.peer_error && handshake_intact && sc.after == After::Honest && sc.fates.is_empty() && fa.max_failed_per_window < 6 && sc.dally {
         obs.class("completion-required");
         if !(fa.completed && fa.ended_cleanly) {
             viol!(
@@ -133,7 +134,7 @@ pub fn run(ctx: &Ctx) {
     explore_n(ctx, "behind-the-wrap", ctx.tier.pick(32, 1600), shards(), 64, wrap_strategy, |c: &Scenario, o| dirs.with(|d| judge(d, c, o)));
     // windows of more than 32768 blocks that really fill (acknowledgement distances beyond half the number space)
     let huge: Vec<Scenario> = super::c15::huge_window_cases().into_iter().filter(|s| s.role == Role::Sender).collect();
-    let nh = ctx.tier.pick(3, huge.len());
+    let nh = ctx.tier.pick(5, huge.len());
     enumerate(ctx, "huge-windows", &huge[..nh], false, |c, o| dirs.with(|d| judge(d, c, o)));
     // on the wire the window bound is the *acknowledged* windowsize: downloads from the real tftpd with windows of up to
     // 65535 blocks / several MB, every burst counted by a model client with an enlarged receive buffer (shared with C09)
